@@ -6,10 +6,18 @@ import json, sys, os, glob
 TECH = "bounded symbolic execution of the real code's go/ssa by /verif/engine (gosym), assertions decided by z3 over all values within the stated bounds; counterexamples replayed natively"
 
 CHECKS = {
+ "C01": dict(
+  text="Solver-decided, bounded: the representation invariant (every current signature verifies for the current state or all slots are nil; staged slots verify for the staged state) is shown inductive: from an arbitrary machine satisfying it, any one of the 17 operations with symbolic arguments (all signature kinds, any index below N) re-establishes it; an unsigned current state arises only from SetProgressed; Sig() signs only in signing phases and only the staged state. One inductive step covers call sequences of any length; a BMC obligation from 9 API-reached milestone states re-verifies CurrentTX() with channel.Verify after every step.",
+  note="Trusted: go/ssa lowering, interpreter (translator-validated), z3; ideal signature scheme under the real sim backend code; the invariant as stated in the evidence.",
+  ref="DESIGN.md §3 C01"),
  "C02": dict(
   text="Solver-decided, bounded: for every well-formed current state and every candidate within 13 shape variants (all leaves symbolic, amounts unbounded integers) the real StateMachine.Update accepts only candidates satisfying an independent reference predicate written from the property text, never panics, and leaves phase/staging/current untouched and refuses to sign when it refuses; same for Init and CheckUpdate; Allocation.Valid is exact at the 1024/1025 limits.",
   note="Trusted: go/ssa lowering, interpreter (translator-validated per run), z3 (linear integer arithmetic for the sums); the reference predicate of DESIGN.md Appendix A.1.",
   ref="DESIGN.md §3 C02, Appendix A.1"),
+ "C09": dict(
+  text="Solver-decided, bounded: from an arbitrary invariant-satisfying machine (all 12 phases x staging/current shapes, symbolic state leaves) each of the 17 operations returns nil exactly when the reference automaton written from the method documentation enables it, then reaches the documented phase with the documented effect, and otherwise leaves phase, staging and current transaction (identity, slots and contents) unchanged; never panics for indices below N.",
+  note="Trusted: go/ssa lowering, interpreter (translator-validated), z3; reference automaton of DESIGN.md Appendix A.2; ideal signatures.",
+  ref="DESIGN.md §3 C09, Appendix A.2"),
  "C15": dict(
   text="Solver-decided, bounded: for all pairs of values within the shape bounds (independent shapes and all single-field variants, every leaf symbolic) the real Equal/AssertEqual functions agree with byte equality of the real encodings, and the real sim backend's Sign/Verify (over an ideal hash and signature scheme) accept exactly (same signer, equal state). Not a proof: larger dimensions and longer amounts are outside.",
   note="Trusted: go/ssa lowering, the interpreter (validated per run against native execution on random vectors), z3; idealised SHA-256/ECDSA; representation assumptions listed in the evidence.",
